@@ -357,12 +357,13 @@ def c03_apply(detector, ops) -> None:
             c = getattr(detector, b)
             if c._array is not None and b != "charge":
                 c.array = np.array(c._array, copy=True)
-        elif kind == "scene":  # ["scene", k]  put a source into the scene
+        elif kind == "scene":  # ["scene", k[, wavelengths]]  put a source into the scene
             k = int(op[1])
+            wl = [float(v) for v in (op[2] if len(op) > 2 else [500.0, 600.0])]
             src = xr.Dataset(
                 {"x": ("ref", [float(k)]), "y": ("ref", [2.0 * k]), "weight": ("ref", [1.0]),
-                 "flux": (("ref", "wavelength"), [[float(k), k + 1.0]])},
-                coords={"ref": [0], "wavelength": [500.0, 600.0]},
+                 "flux": (("ref", "wavelength"), [[float(k + j) for j in range(len(wl))]])},
+                coords={"ref": [0], "wavelength": wl},
             )
             detector.scene.add_source(src)
         elif kind == "data":  # ["data", key, values]  processed data
